@@ -93,6 +93,10 @@ def make_seq(ch, params):
         else:
             # compare-exchange: sometimes with the value we last stored there (success), sometimes not (failure)
             exp = known.get((addr + off, nb), pools.draw_value(ch, t)) if ch.below(2) else pools.draw_value(ch, t)
+            if nb * 8 < bits and ch.below(3) == 0:
+                # the expected operand is wrapped to the access width first: bits above it must not prevent the exchange
+                exp = (exp & ((1 << (nb * 8)) - 1)) | ((1 + ch.below((1 << (bits - nb * 8)) - 1)) << (nb * 8))
+                classes['cmpxchg_expected_high_bits'] = classes.get('cmpxchg_expected_high_bits', 0) + 1
             script.append(('call', 0, e, [base, exp, v]))
             classes['cmpxchg'] = classes.get('cmpxchg', 0) + 1
         if kind in ('astore', 'rmw') and (n.endswith('xchg_u') or n.endswith('.xchg') or kind == 'astore'):
@@ -106,9 +110,12 @@ def make_seq(ch, params):
 
 
 # ------------------------------------------------------------------------------------------------ concurrent stress
-def stress_module():
+def stress_module(imported=False):
     m = Module()
-    m.memory = (1, 1, True)
+    if imported:
+        m.imports.append((b'env', b'memory', 'memory', (1, 1, True)))      # the embedder owns the shared memory
+    else:
+        m.memory = (1, 1, True)
     m.exports.append((b'memory', 'memory', 0))
     for fi, (t, w, nb) in enumerate(SHAPES):
         sfx = '_u' if w else ''
@@ -162,6 +169,17 @@ def stress_driver():
 #include <pthread.h>
 #include "m.h"
 void trap(Trap t) { fprintf(stderr, "trap %d\\n", (int)t); abort(); }
+#ifdef VF_IMPORTED_MEMORY
+static wasmMemory* vf_shared;
+static void* vf_resolve(const char* module, const char* name) {
+    (void)module;
+    if (strcmp(name, "memory") == 0) { if (!vf_shared) vf_shared = wasmMemoryAllocate(1, 1, true); return vf_shared; }
+    return NULL;
+}
+#define VF_RESOLVER vf_resolve
+#else
+#define VF_RESOLVER NULL
+#endif
 static mInstance root;
 static int MODE, FL, T, N; static U32 ADDR = 64;
 typedef struct { int tid; mInstance* inst; U64* olds; } W;
@@ -214,7 +232,7 @@ int main(int argc, char** argv) {
     (void)argc;
     MODE = atoi(argv[1]); FL = atoi(argv[2]); T = atoi(argv[3]); N = atoi(argv[4]); init = strtoull(argv[5], NULL, 10);
     FL_BITS = bits[FL];
-    mInstantiate(&root, NULL);
+    mInstantiate(&root, VF_RESOLVER);
     do_store(&root, init);
     pthread_barrier_init(&bar, NULL, (unsigned)T);
     for (t = 0; t < T; t++) {
@@ -235,26 +253,29 @@ int main(int argc, char** argv) {
 
 
 BUILDS = {'gcc-O2': ['gcc', '-O2', '-w'], 'clang-O2': ['clang', '-O2', '-w'], 'gcc-O0': ['gcc', '-O0', '-w'],
-          'clang-tsan': ['clang', '-O1', '-g', '-w', '-fsanitize=thread']}
+          'clang-tsan': ['clang', '-O1', '-g', '-w', '-fsanitize=thread'],
+          'gcc-O2-ndebug': ['gcc', '-O2', '-w', '-DNDEBUG'], 'clang-tsan-ndebug': ['clang', '-O1', '-g', '-w', '-fsanitize=thread', '-DNDEBUG']}
 _bin = {}
 
 
-def stress_binary(build):
-    if build in _bin and os.path.exists(_bin[build]):
-        return _bin[build]
+def stress_binary(build, imported=False):
+    key = (build, imported)
+    if key in _bin and os.path.exists(_bin[key]):
+        return _bin[key]
     d = cexec.new_dir('st')
-    tr = cexec.translate(wasm.encode(stress_module()), d, 'm', (), 'plain')
+    tr = cexec.translate(wasm.encode(stress_module(imported)), d, 'm', (), 'plain')
     if tr.rc != 0:
         raise cexec.InfraError('translating the atomics stress module failed: %s' % tr.err[-300:])
     open(os.path.join(d, 'driver.c'), 'w').write(stress_driver())
-    cmd = BUILDS[build] + ['-DWASM_THREADS_PTHREADS', '-I', os.path.join(cexec.REPO, 'w2c2'), '-I', os.path.join(cexec.REPO, 'futex'),
-                           'driver.c', 'm.c'] + [os.path.join(cexec.REPO, 'futex', f) for f in cexec.FUTEX_SRCS] + \
+    cmd = BUILDS[build] + (['-DVF_IMPORTED_MEMORY=1'] if imported else []) + \
+        ['-DWASM_THREADS_PTHREADS', '-I', os.path.join(cexec.REPO, 'w2c2'), '-I', os.path.join(cexec.REPO, 'futex'),
+         'driver.c', 'm.c'] + [os.path.join(cexec.REPO, 'futex', f) for f in cexec.FUTEX_SRCS] + \
         ['-o', 'stress', '-lpthread', '-lm']
     r = cexec.run(cmd, cwd=d)
     if r.returncode != 0:
         raise cexec.InfraError('building the atomics stress harness (%s) failed: %s' % (build, r.stderr.decode(errors='replace')[-1500:]))
-    _bin[build] = os.path.join(d, 'stress')
-    return _bin[build]
+    _bin[key] = os.path.join(d, 'stress')
+    return _bin[key]
 
 
 MODES = ['add', 'sub', 'xchg', 'cas-incr', 'or', 'and', 'xor', 'cas-lock']
@@ -267,7 +288,7 @@ def run_stress(case):
     init = case['init'] & M
     if mode == 5:
         init = M
-    exe = stress_binary(build)
+    exe = stress_binary(build, bool(case.get('imported')))
     env = dict(os.environ)
     env['TSAN_OPTIONS'] = 'exitcode=96:report_thread_leaks=0'
     try:
@@ -369,7 +390,8 @@ def stress_task(wid, seed, params):
         build = params['builds'][(wid + ci) % len(params['builds'])]
         if 'tsan' in build:
             N = min(N, 5000)
-        case = {'kind': 'stress', 'mode': mode, 'flavour': fl, 'T': T, 'N': N, 'build': build, 'init': ch.bits(64) if mode in (2, 4, 6) else ch.below(3)}
+        case = {'kind': 'stress', 'mode': mode, 'flavour': fl, 'T': T, 'N': N, 'build': build, 'init': ch.bits(64) if mode in (2, 4, 6) else ch.below(3),
+                'imported': ch.below(3) == 0}
         if mode in (2, 7):
             case['init'] = 0
         if mode == 7:
@@ -382,6 +404,8 @@ def stress_task(wid, seed, params):
         res['evaluations'] += T * N
         res['classes']['mode_' + MODES[mode]] += 1
         res['classes']['build_' + build] += 1
+        if case.get('imported'):
+            res['classes']['stress_imported_memory'] += 1
         if inter:
             res['classes']['interleaved'] += 1
             res['nontrivial'].add(f1.hx((mode, fl, T, N, build)))
@@ -411,11 +435,11 @@ def plan(tier, seed):
     if tier == 'quick':
         seq = [{'maker': 'c16_seq', 'ncases': 12, 'ccs': ['gcc-O0', 'clang-O2', 'gcc-O2', 'clang-O0', 'clang-O1-san', 'gcc-O1-be', 'clang-O2-be'], 'nsteps': 160,
                 'shrink_budget': 20, 'reduce_budget': 10} for _ in range(8)]
-        st = [{'stress': True, 'ncases': 14, 'builds': ['gcc-O2', 'clang-O2', 'clang-tsan', 'gcc-O0']} for _ in range(8)]
+        st = [{'stress': True, 'ncases': 14, 'builds': ['gcc-O2', 'clang-O2', 'clang-tsan', 'gcc-O0', 'gcc-O2-ndebug', 'clang-tsan-ndebug']} for _ in range(8)]
         return seq + st
     seq = [{'maker': 'c16_seq', 'ncases': 200, 'ccs': ['gcc-O0', 'clang-O2', 'gcc-O2', 'clang-O0', 'clang-O1-san', 'gcc-O3', 'clang-O3', 'gcc-O1-be', 'clang-O2-be', 'gcc-O0-be'],
             'nsteps': 400, 'shrink_budget': 30, 'reduce_budget': 20} for _ in range(24)]
-    st = [{'stress': True, 'ncases': 300, 'builds': ['gcc-O2', 'clang-O2', 'clang-tsan', 'gcc-O0']} for _ in range(16)]
+    st = [{'stress': True, 'ncases': 300, 'builds': ['gcc-O2', 'clang-O2', 'clang-tsan', 'gcc-O0', 'gcc-O2-ndebug', 'clang-tsan-ndebug']} for _ in range(16)]
     return seq + st
 
 
